@@ -12,6 +12,7 @@ import (
 	"fmt"
 	"strings"
 
+	"github.com/canopy-network/canopy/fsm"
 	"github.com/canopy-network/canopy/lib"
 	"github.com/canopy-network/canopy/lib/crypto"
 
@@ -332,8 +333,99 @@ func o3Job(j Job) (res Result) {
 	if !bytes.Equal(hb.StateRoot, directRoot) {
 		res.Notes = append(res.Notes, "controller-built block and direct-path block with the same transactions have different state roots (different certificate results / time); not compared")
 	}
+	// O4: a proposal refused at a STATELESS stage (before the block is played) must not leave the node in the
+	// governance mode of proposal validation: a follower then receives a CERTIFIED block that carries a
+	// parameter change which is not on its own approve list; in the default mode of committed blocks
+	// (accept all) it must commit it, exactly like a node that never saw the refused proposal.
+	v, why := o4(g, msgs, H, cfg.name, recipeList(j.Path))
+	if why != "" {
+		res.Notes = append(res.Notes, "O4 not evaluated: "+why)
+	}
+	if v != nil {
+		v.Replay = replayArt{Kind: "o3", Cfg: cfg.name, Recipes: recipeList(j.Path), Path: j.Path, Case: "o4"}
+		res.Viols = append(res.Viols, *v)
+	} else {
+		res.Commits++
+	}
 	res.Sample = map[string]any{"part": "controller-level rejection", "cfg": cfg.name, "state": recipeList(j.Path), "height": H, "rejections": res.Rejections, "stages": res.RejStages,
 		"committed_hash": hex.EncodeToString(hb.Hash)}
 	_ = crypto.Hash
 	return
+}
+
+func o4(g *fsm.GenesisState, msgs []*lib.BlockMessage, H uint64, cfgName string, state []string) (*mc.Viol, string) {
+	mk := func(name string, key int, approve bool) (*env.Node, error) {
+		n, e := env.NewNode(g, env.NodeOpts{Name: name, Key: key, ApproveList: approve})
+		if e != nil {
+			return nil, e
+		}
+		for _, m := range msgs {
+			wm, e2 := env.WireCopy(m)
+			if e2 != nil {
+				n.Close()
+				return nil, e2
+			}
+			if e2 = n.HandlePeerBlock(wm, false); e2 != nil {
+				n.Close()
+				return nil, fmt.Errorf("node %s refuses the chain's block: %v", name, e2)
+			}
+		}
+		return n, nil
+	}
+	A2, e := mk("A2", 0, true)
+	if e != nil {
+		return nil, "node A2: " + e.Error()
+	}
+	defer A2.Close()
+	a, err := lib.NewAny(&lib.UInt64Wrapper{Value: 4380 + H})
+	if err != nil {
+		return nil, err.Error()
+	}
+	k := env.BLS(4)
+	gov := c07lib.MkTx(k, &fsm.MessageChangeParameter{ParameterSpace: fsm.ParamSpaceVal, ParameterKey: fsm.ParamMaxPauseBlocks, ParameterValue: a,
+		StartHeight: 1, EndHeight: 10000, Signer: env.Addr(k).Bytes()}, c07lib.Fee, H, c07lib.BlockTime(H)+77, "")
+	approve := fsm.GovProposals{crypto.HashString(gov): fsm.GovProposalWithVote{Proposal: []byte(`{}`), Approve: true}}
+	if e2 := approve.SaveToFile(A2.Dir); e2 != nil {
+		return nil, e2.Error()
+	}
+	if es := A2.SubmitTxs(gov); es[0] != nil {
+		return nil, "mempool refuses the parameter change: " + es[0].Error()
+	}
+	p2, pe := A2.Propose()
+	if pe != nil {
+		return nil, "propose: " + pe.Error()
+	}
+	if len(p2.Block.Transactions) != 1 {
+		return nil, fmt.Sprintf("the leader included %d transactions", len(p2.Block.Transactions))
+	}
+	qc2, ce := A2.Certify(p2, 0, nil, 0)
+	if ce != nil {
+		return nil, ce.Error()
+	}
+	for _, withRejection := range []bool{false, true} {
+		B2, e := mk("B2", 1, false)
+		if e != nil {
+			return nil, "node B2: " + e.Error()
+		}
+		if withRejection {
+			// a leader's PROPOSE whose certificate carries no block: refused by CheckProposalBasic
+			bad := cloneProposal(p2)
+			bad.BlockBytes = nil
+			if _, e3 := B2.ValidateProposal(bad, 0, false); e3 == nil {
+				B2.Close()
+				return nil, "the block-less proposal was not refused"
+			}
+		}
+		msg, _ := env.WireCopy(&lib.BlockMessage{ChainId: env.ChainID, BlockAndCertificate: qc2, Time: c07lib.BlockTime(H)})
+		e4 := B2.HandlePeerBlock(msg, false)
+		B2.Close()
+		if e4 != nil {
+			if !withRejection {
+				return nil, "a follower that saw no refused proposal cannot commit the block either: " + e4.Error()
+			}
+			return &mc.Viol{Sig: "C07:node-rejection:certified-block-refused-after-rejected-proposal",
+				What: fmt.Sprintf("state=%v cfg=%s: a node that refused a block-less proposal at the stateless stage then refuses the certified block %d carrying a parameter change (%s); a node that never saw the refused proposal commits it", state, cfgName, H, strings.ReplaceAll(e4.Error(), "\n", " "))}, ""
+		}
+	}
+	return nil, ""
 }
